@@ -111,6 +111,24 @@ CHECKS = {
         COSCHED_NOTE,
         "DESIGN.md section 2.1 and section 4, C12",
     ),
+    "C13": (
+        "cosched",
+        "stateless exhaustive schedule exploration of the real cli_run() with iterative "
+        "deviation bounding; real daemon processes as conformance binding",
+        "Generated configurations (YAML with !Tag / __type__ mixtures and optional logging "
+        "section, Python modules with >>) x pipeline shape x service flavour x end (SIGINT at "
+        "every explored point, failing service by raise / return, eight kinds of "
+        "configuration error) run through the real cli_run() - CLI parsing, logging set-up, "
+        "entry-point discovery of the recording plugin classes, config loading, ServiceRunner "
+        "- under every schedule within 1 (quick) / 2 (thorough) deviations. Oracle: objects "
+        "constructed inside the running loop, each service started once and beating until "
+        "the signal, cancelled by it, exit status 0; errors and failing services give a "
+        "non-zero status and an ERROR record; never up-but-idle. 9-18 real `python -m "
+        "cobald.daemon` processes must agree.",
+        COSCHED_NOTE + " Real signal timing inside an OS process cannot be enumerated; the "
+        "process runs bind the in-process verdict for one signal time per outcome class.",
+        "DESIGN.md section 2.1 and section 4, C13",
+    ),
     "C17": (
         "smallscope",
         "bounded-exhaustive input enumeration against an independent line-protocol parser",
